@@ -524,6 +524,62 @@ fn round(g: &mut Xo, rep: &mut Report) {
         }
     }
 
+    // ... and lists nested in lists: every level converts its member's error into its own erased
+    // form exactly once, so a failure d levels down arrives wrapped d times (`Other` around what
+    // the member itself reports), never flattened into - or mistaken for - an error of an outer list
+    {
+        use ec_core::operator::selector::dyn_weighted::{DynWeighted, DynWeightedError};
+        fn shape(e: &DynWeightedError) -> (usize, String) {
+            match e {
+                DynWeightedError::Other(b) => match b.downcast_ref::<DynWeightedError>() {
+                    Some(inner) => {
+                        let (d, leaf) = shape(inner);
+                        (d + 1, leaf)
+                    }
+                    None => (1, format!("member error: {b:?}")),
+                },
+                own => (0, format!("own error: {own:?}")),
+            }
+        }
+        let depth = 1 + (seed % 3) as usize;
+        let flavour = (seed >> 5) % 3;
+        // innermost list: 0 = its own weights are all zero, 1 = its member fails with a chain,
+        // 2 = it works (Best) - fails only on an empty population, with the member's error
+        let innermost: DynWeighted<Pop> = match flavour {
+            0 => DynWeighted::new(Leaf::new(0, LeafKind::Best), 0).with_selector(ChainFail, 0),
+            1 => DynWeighted::new(ChainFail, 3),
+            _ => DynWeighted::new(Leaf::new(0, LeafKind::Best), 2),
+        };
+        let alone = innermost.select(&pop, &mut TraceRng::stream(seed)).map(|x| x as *const IndS);
+        let innermost: DynWeighted<Pop> = match flavour {
+            0 => DynWeighted::new(Leaf::new(0, LeafKind::Best), 0).with_selector(ChainFail, 0),
+            1 => DynWeighted::new(ChainFail, 3),
+            _ => DynWeighted::new(Leaf::new(0, LeafKind::Best), 2),
+        };
+        let mut nested = innermost;
+        for level in 0..depth {
+            nested = DynWeighted::new(nested, 1 + level);
+        }
+        take_leaf_log();
+        let got = nested.select(&pop, &mut TraceRng::stream(seed)).map(|x| x as *const IndS);
+        take_leaf_log();
+        rep.eval();
+        rep.count("DynWeighted(nested lists)");
+        let problem = match (&alone, &got) {
+            (Ok(a), Ok(b)) => (a != b).then(|| "the nested list selects another element than the innermost list (a deterministic member)".to_string()),
+            (Err(a), Err(b)) => {
+                let (da, la) = shape(a);
+                let (db, lb) = shape(b);
+                (db != da + depth || la != lb).then(|| format!("the innermost list alone reports {a:?}; behind {depth} more list(s) it must arrive wrapped {depth} more time(s), got {b:?}"))
+            }
+            (Ok(_), Err(e)) => Some(format!("the innermost list selects, the nested one fails with {e:?}")),
+            (Err(e), Ok(_)) => Some(format!("the innermost list fails with {e:?}, the nested one selects")),
+        };
+        if let Some(why) = problem {
+            rep.violation("C17/DynWeighted(nested)/error-not-converted-once-per-level", || json!({"depth": depth, "innermost": (["all weights zero", "member fails with a cause chain", "Best"][flavour as usize]), "population_size": n, "why": why}));
+        }
+    }
+
     // ---------------------------------------------------------------- mutators
     let genome: G = (0..g.usize_below(12)).map(|_| g.chance(1, 2)).collect();
     let mk = match g.below(4) {
